@@ -174,6 +174,18 @@ class Interp:
                         if pk is not None and t == 3 and pk.get('dup'):
                             owner = 'retransmit'
                         else:
+                            # (a request CANCELLED while it waited in the queue and then refused locally has no DONE line
+                            #  to say so: when the packet at hand cannot be its packet — another QoS or payload — it is
+                            #  taken for refused and the packet goes to the next request: DESIGN.md false alarm (9))
+                            for x in list(self.fifo):
+                                if x.dropped is not None and not x.w and x.kind == 'PUBLISH' and want == 'PUBLISH' and pk is not None \
+                                        and (x.qos != pk['qos'] or unhex(x.f.get('p', [''])[0]) != bytes(pk['payload'])):
+                                    self.refused.add(x.id)
+                                elif x.dropped is not None and not x.w and x.kind != want and x.kind in ('PUBLISH', 'SUBSCRIBE', 'UNSUBSCRIBE'):
+                                    # requests leave the queue in order: a later request's packet on the wire means this one was refused
+                                    self.refused.add(x.id)
+                                else:
+                                    break
                             first = next((x for x in self.fifo if x.id not in self.refused), None)
                             if first is not None and first.kind == want:
                                 owner = first
@@ -1083,7 +1095,10 @@ def o_C13(I):
 
 
 def o_C14(I):
-    out = [x for x in completion_check(I) if 'was never written' in x[2]]
+    # (round 10, C14-j: a QoS 2 publish awaiting its PUBCOMP at the drop reported success — an operation pending at the drop
+    #  may report a value only if the acknowledgement saying so had been fed: completion_check's rule)
+    out = [x for x in completion_check(I) if 'was never written' in x[2] or 'no acknowledgement addressed to it' in x[2]
+           or 'PINGRESP for it' in x[2]]
     d = [n for n, e in enumerate(I.events) if e['kind'] == 'dropctx']
     if not d:
         return out
